@@ -66,6 +66,16 @@ func shapeOracle(o *Out, input string) {
 			o.finding(Finding{Property: "C10", Kind: "failing-input", What: "Parse accepted without an Expression", Request: "parse 0 " + hx(input)})
 		}
 	}
+	// creation results must not depend on earlier calls: a success, then the input twice
+	if len(input) > 0 && len(input) < 40 {
+		bexpr.CreateFilter("a == 1")
+		for rep := 0; rep < 2; rep++ {
+			f0, e0 := bexpr.CreateFilter(input)
+			if (f0 == nil) == (e0 == nil) {
+				o.finding(Finding{Property: "C10", Kind: "failing-history", What: fmt.Sprintf("CreateFilter returned both or neither on call %d of the same input after an earlier success", rep+1), Request: "parse 0 " + hx(input)})
+			}
+		}
+	}
 	var f *bexpr.Filter
 	var ferr error
 	func() {
@@ -432,6 +442,17 @@ func fragBudget(g *Gen, n int, o *Out) {
 			accepted := strings.HasPrefix(lim, "ok")
 			if (err == nil) != accepted || (ev != nil) != accepted {
 				o.finding(Finding{Property: "C11", Kind: "failing-input", What: "WithMaxExpressions and grammar.MaxExpressions disagree", Request: fmt.Sprintf("parse %d %s", b, hx(in))})
+			}
+		}
+		// an unlimited parse right after limited ones gives the unlimited result again
+		for rep := 0; rep < 6; rep++ {
+			grammar.Parse("", []byte(in), grammar.MaxExpressions(3))
+			grammar.Parse("", []byte("a == 1"), grammar.MaxExpressions(uint64(600+rep)))
+			again := realParse(0, []byte(in))
+			if again != unl {
+				o.finding(Finding{Property: "C11", Kind: "failing-history", What: "an unlimited parse after a limited one differs from the unlimited result", Request: "parse 0 " + hx(in), Detail: again + " vs " + unl})
+				o.finding(Finding{Property: "C15", Kind: "failing-history", What: "a derivable string is rejected after an earlier limited parse: " + again, Request: "parse 0 " + hx(in)})
+				break
 			}
 		}
 		// zero is unlimited through the public option
